@@ -276,7 +276,21 @@ func ruleTwinUpdate(names ...string) func(p *Prog, l *Ledger, tier string) {
 			if fn == nil {
 				continue
 			}
+			// every non-constant StartAt store of the operation (for blocks that clamp StartAt to a constant)
+			var allStarts []*ssa.Store
 			for _, b := range p.helperBlocks(fn) {
+				for _, ins := range b.Instrs {
+					if st, ok := ins.(*ssa.Store); ok {
+						if t, f := fieldOfAddr(st.Addr); t == "Item" && f == "StartAt" {
+							if _, isConst := stripConv(st.Val).(*ssa.Const); !isConst {
+								allStarts = append(allStarts, st)
+							}
+						}
+					}
+				}
+			}
+			for _, b := range p.helperBlocks(fn) {
+				constStart := 0
 				var starts, ends, both []*ssa.Store
 				for _, ins := range b.Instrs {
 					st, ok := ins.(*ssa.Store)
@@ -300,10 +314,16 @@ func ruleTwinUpdate(names ...string) func(p *Prog, l *Ledger, tier string) {
 						continue
 					}
 					if _, isConst := st.Val.(*ssa.Const); isConst {
+						if f == "StartAt" {
+							constStart++
+						}
 						continue // clamp to a constant: not part of the shift
 					}
 					if cv, ok := st.Val.(*ssa.Convert); ok {
 						if _, isConst := cv.X.(*ssa.Const); isConst {
+							if f == "StartAt" {
+								constStart++
+							}
 							continue
 						}
 					}
@@ -329,6 +349,22 @@ func ruleTwinUpdate(names ...string) func(p *Prog, l *Ledger, tier string) {
 					pos = p.Pos(starts[0].Pos())
 				} else {
 					pos = p.Pos(ends[0].Pos())
+				}
+				if len(starts) == 0 && constStart > 0 && len(ends) == 1 {
+					// the clamped branch: StartAt gets the constant, EndAt the shifted value; that value must be
+					// the one StartAt gets where it is not clamped
+					okIso := false
+					for _, s0 := range allStarts {
+						if exprIso(an, s0.Val, ends[0].Val, "StartAt", "EndAt", 0) {
+							okIso = true
+						}
+					}
+					if okIso {
+						l.Prove(rule, name, key, pos, "StartAt is clamped to a constant here and EndAt receives the expression StartAt receives elsewhere, up to the field swap")
+					} else {
+						l.Fail(rule, name, key, pos, name+": where StartAt is clamped, EndAt receives an expression that is not the one StartAt receives elsewhere: the two boundaries are not mapped alike")
+					}
+					continue
 				}
 				if len(starts) != 1 || len(ends) != 1 {
 					l.Fail(rule, name, key, pos, fmt.Sprintf("%s updates StartAt %d time(s) and EndAt %d time(s) in one step: the two boundaries of a cue must receive the same update", name, len(starts), len(ends)))
@@ -673,7 +709,7 @@ func ruleForceDurationGuards(p *Prog, l *Ledger, tier string) {
 							if side == bo.Y {
 								other = bo.X
 							}
-							if other == ssa.Value(fn.Params[1]) {
+							if throughLocalCell(other) == ssa.Value(fn.Params[1]) { // d itself, or d captured by a closure (then it lives in a cell assigned once)
 								eqIf = iff
 							}
 						}
